@@ -34,9 +34,34 @@ func genC06(tier string, run int, r *simcore.Rand) *harness.Plan {
 		max = 7
 	}
 	spec := genWorld(r, r.Range(3, max), r.Bool(0.3))
-	cfg.World = *spec
 	ops := genArrivals(r, spec, false, false)
 	every := tier == "thorough" && r.Bool(0.5)
+	// One run in ten: permanodes whose time comes from their content (own
+	// choice stream: the other draws are as before).
+	if r2 := simcore.NewRand(simcore.Mix(r.Uint64(), "content-world")); r2.Bool(0.1) {
+		spec, ops = genContentWorld(r2)
+	}
+	cfg.World = *spec
+	// One run in seven: the index rows refuse the commit of one delivery.
+	if r3 := simcore.NewRand(simcore.Mix(r.Uint64(), "commit-fault")); r3.Bool(0.15) {
+		var ds []int
+		for i, op := range ops {
+			if op.K == "deliver" {
+				ds = append(ds, i)
+			}
+		}
+		if len(ds) > 0 {
+			at := ds[r3.Intn(len(ds))]
+			f := ops[at]
+			f.K, f.Race = "faildeliver", false
+			if r3.Bool(0.7) {
+				// the client tries again (the original delivery stays)
+				ops = append(ops[:at], append([]Op{f}, ops[at:]...)...)
+			} else {
+				ops[at] = f
+			}
+		}
+	}
 	if r.Bool(0.6) {
 		cfg.Corpus = "start"
 	} else {
@@ -70,6 +95,82 @@ func genC06(tier string, run int, r *simcore.Rand) *harness.Plan {
 	p.LockYield = []int{0, 0, 50, 300, 1000}[r.Intn(5)]
 	p.Sticky = []int{0, 0, 500, 900}[r.Intn(4)]
 	return p
+}
+
+// genContentWorld: two or three permanodes with a few claims each, some of
+// them pointing (camliContent) at files whose modification time lies among
+// the claim dates or far from them, so that a permanode's place in the
+// orderings by time depends on a file blob. The file schema blobs arrive in a
+// second phase, after the claims that point at them.
+func genContentWorld(r *simcore.Rand) (*WorldSpec, []Op) {
+	b := newWB(r, 1, false)
+	npn := r.Range(2, 3)
+	var pns []int
+	for i := 0; i < npn; i++ {
+		pns = append(pns, b.addPN())
+	}
+	nfile := r.Range(1, 2)
+	var files []int
+	for i := 0; i < nfile; i++ {
+		chunk := b.addBlob()
+		it := Item{K: "file", Parts: []int{chunk}, Name: "f.txt"}
+		switch r.Intn(3) {
+		case 0:
+			it.MT = int64(r.Range(1, 60)) // among the claim dates
+		case 1:
+			it.MT = int64(r.Range(61, 100000))
+		}
+		files = append(files, b.add(it))
+	}
+	for _, pn := range pns {
+		for k := r.Range(0, 2); k > 0; k-- {
+			b.add(Item{K: "claim", CT: []string{"set", "add"}[r.Intn(2)], PN: pn, S: b.item(pn).S, Attr: []string{"tag", "title"}[r.Intn(2)], Val: plainVals[r.Intn(len(plainVals))], D: b.date()})
+		}
+	}
+	for i, f := range files {
+		pn := pns[i%len(pns)]
+		if r.Bool(0.3) {
+			pn = b.pick(pns)
+		}
+		b.add(Item{K: "claim", CT: "set", PN: pn, S: b.item(pn).S, Attr: "camliContent", Ref: f + 1, D: b.date()})
+	}
+	spec := &WorldSpec{Items: b.items}
+	isFile := map[int]bool{}
+	for _, f := range files {
+		isFile[f] = true
+	}
+	w := &world{spec: spec}
+	all := make([]int, len(spec.Items))
+	for i := range all {
+		all[i] = i
+	}
+	order := w.canonicalOrder(all)
+	if r.Bool(0.5) {
+		p := r.Perm(len(order))
+		o2 := make([]int, len(order))
+		for i, j := range p {
+			o2[i] = order[j]
+		}
+		order = o2
+	}
+	nclients := r.Range(1, 3)
+	var ops []Op
+	for _, i := range order {
+		if !isFile[i] {
+			ops = append(ops, Op{K: "deliver", I: i, C: 1 + r.Intn(nclients)})
+		}
+	}
+	if r.Bool(0.3) {
+		ops = append(ops, Op{K: "restart"})
+	}
+	ops = append(ops, Op{K: "check"})
+	for _, f := range files {
+		ops = append(ops, Op{K: "deliver", I: f, C: 1 + r.Intn(nclients)})
+		if r.Bool(0.5) {
+			ops = append(ops, Op{K: "check"})
+		}
+	}
+	return spec, ops
 }
 
 // ---------------------------------------------------------------------------
@@ -437,11 +538,21 @@ func execC06(rc *harness.RunCtx, p *harness.Plan, cfg *Config, w *world, ops []O
 	seed := p.SchedSeed
 	s := newSession(rc, w, "main")
 	s.corpusOn = cfg.Corpus == "start" || cfg.Corpus == ""
+	for _, op := range ops {
+		if op.K == "faildeliver" {
+			s.faultKV = true
+		}
+	}
 	s.reseed(simcore.Mix(seed, "seg", "open"))
 	if err := s.open(); err != nil {
 		out.Inconclusive = "open: " + err.Error()
 		return out
 	}
+	defer func() {
+		for k, v := range s.reach {
+			out.Reached[k] += v
+		}
+	}()
 	q := newQuestions(w, cfg)
 	var fl histFlags
 	clients := map[int]bool{}
@@ -598,6 +709,32 @@ func execC06(rc *harness.RunCtx, p *harness.Plan, cfg *Config, w *world, ops []O
 			}
 		case "check":
 			if compare(i) {
+				return out
+			}
+		case "faildeliver":
+			failed, err := s.failDeliver(ops[i], i)
+			if err != nil {
+				out.Inconclusive = "faildeliver never quiesced: " + err.Error()
+				return out
+			}
+			s.flushRec()
+			if !failed {
+				// an ordinary delivery, in a segment of its own
+				op := ops[i]
+				op.K = "deliver"
+				cz.beginSegment(s.corpusOn, s.rows())
+				cz.sequential = !cz.pendingAtStart
+				cz.noteDelivery(op, s.corpusOn)
+				cz.endSegment()
+				break
+			}
+			// The upload failed and nothing of it was committed: a fresh
+			// index over the rows knows nothing of the blob, and neither
+			// may the live one.
+			if s.corpusOn {
+				out.Reached["compare-after-failed-commit"]++
+			}
+			if compare(i + 1) {
 				return out
 			}
 		}
